@@ -116,7 +116,6 @@ fam(r"crrl::(p256|secp256k1)::PublicKey::verify_hash", ["C08"], [
     g(call(r"\w+::decode32", r"bswap\(local:\w+\)", r"PublicKey::verify_hash"), "r and s are decoded strictly (below n)"),
     g(call(r"\w+::iszero", r"res:decode32\(bswap\(local:\w+\)\)", r"PublicKey::verify_hash"), "r != 0 and s != 0"),
     g(call(r"\w+::equals", r"res:decode32" + ANY, r"PublicKey::verify_hash"), "x(R) mod n == r"),
-    g(call(r"Point::isneutral", ANY, ANY), "R is not the point at infinity"),
 ])
 fam(r"crrl::(p256|secp256k1)::PrivateKey::decode", ["C08"], [
     g(r"lencmp:buf (Ne|Eq) 32", "private key length 32"),
@@ -210,6 +209,12 @@ fam(r"crrl::frost::[a-z0-9]+::SignerPrivateKeyShare::verify_split", ["C15"], [
     g(call(r"Point::equals", ANY, ANY), "share consistent with the dealer's commitment"),
 ])
 
+fam(r"crrl::frost::ed448::scalar_decode", ["C15"], [
+    g(r"lencmp:buf (Ne|Eq) 57", "draft-irtf-cfrg-frost: Ed448 scalars are encoded over 57 bytes"),
+    g(r"elemcmp:buf\[56\] (Ne|Eq) 0", "the 57th byte must be exactly zero (compared unmasked)"),
+    g(call(r"Scalar::decode", r"(buf\[\.\.56\]|buf\[0\.\.56\])"), "the first 56 bytes go through the strict scalar decoder"),
+])
+
 # ---------------- C16: LMS verify ----------------
 fam(r"crrl::lms::[A-Za-z0-9_]+::PublicKey::verify", ["C16"], [
     g(r"lencmp:sig (Ne|Eq) \d+", "exact signature size"),
@@ -231,6 +236,14 @@ CALL_ARGS = [
          props=["C07"], why="RFC 8032 5.2: Ed448 uses dom4(0, ctx)"),
     dict(fn=r"crrl::ed448::(PrivateKey::sign|PublicKey::verify)_ph", callee=r"crrl::ed448::\w+::\w+_inner", params={"phflag": 1},
          props=["C07"], why="RFC 8032 5.2: Ed448ph uses dom4(1, ctx)"),
+]
+
+
+INDEPENDENT = [
+    dict(fn=r"crrl::(ed25519|ed448|p256|secp256k1|jq255e|jq255s|gls254|ristretto255|decaf448)::Point::set_mulgen", param=1, props=["C04"],
+         why="set_mulgen(n) computes n*G: its result must not depend on the previous value of self (the first table lookup overwrites, later ones accumulate)"),
+    dict(fn=r"crrl::(ed25519|ed448|p256|secp256k1|jq255e|jq255s|gls254|ristretto255|decaf448)::Point::set_decode", param=1, props=["C06"],
+         why="the decoded point must be a function of the input bytes only"),
 ]
 
 
@@ -274,7 +287,7 @@ def main():
                         include_out=fam_["include_out"], optional=fam_["optional"], matched_today=len(matched)))
     tab = dict(_comment="G3 required gates / G1 forbidden flows. Generated by tools/gen_gates.py from the conjunct classes written "
                "there (spec references in 'why'); 'min' = number of distinct matching check facts reaching the result on the "
-               "reviewed tree.", functions=out, call_args=CALL_ARGS)
+               "reviewed tree.", functions=out, call_args=CALL_ARGS, independent=INDEPENDENT)
     json.dump(tab, open(os.path.join(os.path.dirname(os.path.dirname(os.path.abspath(__file__))), "tables", "gates.json"), "w"), indent=1)
     print("families", len(out), "gates", sum(len(x["gates"]) for x in out), "problems", problems)
 
